@@ -421,8 +421,10 @@ def check_roundtrip_case(case):
             bad('roundtrip:tree', 'printed form %r of %s parses to %s' % (text, t, rt))
         if trees.langs_in(r[1]) != {target}:
             bad('roundtrip:lang', 'printed form %r parses to a formula with nodes of %r' % (text, trees.langs_in(r[1])))
-        if logic == 'CTL':
-            # native CTL print form also belongs to the property's consequence (memo keys): parse with CTL parser
+        if logic == 'CTL' and all(a in ('p', 'q', 'x_1') for a in trees.atoms_of(t)):
+            # beyond the statement (which prints CTL in CTL* notation): where the CTL parser accepts the native CTL print
+            # form, it gives the same tree.  Only over lower-case atoms: the native form of AG('Up') is 'AG Up', which the
+            # CTL grammar reads as A(G U p), and the statement does not cover that reading
             r2 = call(parser_for('CTL'), str(f))
             if r2[0] == 'ok' and trees.tree(r2[1]) != t:
                 bad('roundtrip:tree', 'CTL print form %r of %s parses (CTL parser) to %s' % (str(f), t, trees.tree(r2[1])))
